@@ -625,11 +625,20 @@ pub uninterp spec fn vx_seq_res<T>(s: VxSeq) -> T;
 #[verifier::external_body]
 pub fn vx_next_archetypes<R: Registry>(seq: &mut VxSeq, len: &mut usize) -> (r: Result<Option<Archetypes<R>>, VxErr>)
     ensures *final(seq) == vx_seq_next(*old(seq)),
-            r is Ok && r->Ok_0 is Some ==> r->Ok_0->0 == vx_seq_archs::<R>(*old(seq)) && *final(len) == vx_seq_len(*old(seq)) { unimplemented!() }
+            r is Ok && r->Ok_0 is Some ==> r->Ok_0->0 == vx_seq_archs::<R>(*old(seq)) && *final(len) == vx_seq_len(*old(seq)),
+            // proved of the real ArchetypesVisitor::visit_seq in unit archs (C13.deserialize.wf): the table
+            // set is well formed -- every table under its own key, one table per component set
+            r is Ok && r->Ok_0 is Some ==> vx_single_table(r->Ok_0->0@)
+                && (forall|k: archetype::IdentifierRef<R>| r->Ok_0->0@.dom().contains(k) ==> (#[trigger] r->Ok_0->0@[k]).wf() && r->Ok_0->0@[k].key() == k) { unimplemented!() }
 #[verifier::external_body]
 pub fn vx_next_allocator<R: Registry>(seq: &mut VxSeq, archetypes: &Archetypes<R>) -> (r: Result<Option<Allocator<R>>, VxErr>)
     ensures *final(seq) == vx_seq_next(*old(seq)),
-            r is Ok && r->Ok_0 is Some ==> r->Ok_0->0 == vx_seq_alloc::<R>(*old(seq)) { unimplemented!() }
+            r is Ok && r->Ok_0 is Some ==> r->Ok_0->0 == vx_seq_alloc::<R>(*old(seq)),
+            // proved of the real Allocator::from_serialized_parts in unit allocde (given a table set that
+            // is keyed and whose tables are well formed): the allocator is well formed, agrees with
+            // every stored row and accepts nothing else
+            (forall|k: archetype::IdentifierRef<R>| archetypes@.dom().contains(k) ==> (#[trigger] archetypes@[k]).wf() && archetypes@[k].key() == k)
+                && r is Ok && r->Ok_0 is Some ==> r->Ok_0->0.wf() && vx_tables_ok(archetypes@, &r->Ok_0->0) && vx_ids_stored(archetypes@, &r->Ok_0->0) { unimplemented!() }
 #[verifier::external_body]
 pub fn vx_next_resources<T>(seq: &mut VxSeq) -> (r: Result<Option<VxResDe<T>>, VxErr>)
     ensures *final(seq) == vx_seq_next(*old(seq)),
@@ -879,8 +888,9 @@ def build():
            ensures=[("C18.deserialize_checked", "r is Ok ==> vx_no_duplicates::<Registry>()"),
                     ("C06.world.built_from_stream", "r is Ok ==> r->Ok_0.archetypes == vx_seq_archs::<Registry>(seq) && r->Ok_0.len == vx_seq_len(seq)"),
                     ("C11.world.allocator_from_stream", "r is Ok ==> r->Ok_0.entity_allocator == vx_seq_alloc::<Registry>(vx_seq_next(seq))"),
-                    ("C15.deserialize.resources", "r is Ok ==> r->Ok_0.resources == vx_seq_res::<Resources>(vx_seq_next(vx_seq_next(seq)))")],
-           props=["C18", "C06", "C11", "C15"]),
+                    ("C15.deserialize.resources", "r is Ok ==> r->Ok_0.resources == vx_seq_res::<Resources>(vx_seq_next(vx_seq_next(seq)))"),
+                    ("C13.deserialize.world_wf_but_len", "r is Ok ==> r->Ok_0.entity_allocator.wf() && vx_tables_ok(r->Ok_0.archetypes@, &r->Ok_0.entity_allocator) && vx_ids_stored(r->Ok_0.archetypes@, &r->Ok_0.entity_allocator) && vx_single_table(r->Ok_0.archetypes@)")],
+           props=["C18", "C06", "C11", "C15", "C13"]),
     ])
 
     WQ = "src/world/impl_eq.rs"
